@@ -95,8 +95,11 @@ def stream(ctx, drv):
         n, m, b = compare("tree:whole_span-matcher-programs", lines, hash(src))
         info = drv.call("c01.tree_span", tree=fe.export(tree))
         ctx.dist("tree: treeOk2 " + ("holds" if info["wf2"] else "FAILS"))
+        ctx.dist("tree: treeOk3 (hypothesis of C02_whole_span_exists / C02_meta_program_exactly_once) " + ("holds" if info["wf3"] else "FAILS"))
         ctx.dist("tree: lastDescMono (hypothesis of C02_node_span) " + ("holds" if info["monotone"] else "FAILS"))
         ctx.dist("tree: PreorderMonotone (former, stronger hypothesis) " + ("holds" if info["monotone_preorder"] else "FAILS"))
+        if info["wf2"] and not info["wf3"] and not any(n.startswith("lead: treeOk3") for n in ctx.notes):
+            ctx.notes.append("lead: treeOk3 fails although treeOk2 holds: " + src[:300])
         has_pos_string = any(isinstance(x, ast.Constant) and isinstance(x.value, (str, bytes)) and "_pos=" in repr(x.value)
                              for x in ast.walk(tree))
         sig = SIG_POSSTR if has_pos_string else None
